@@ -29,6 +29,26 @@ def gen(tier, rng):
                 clock = P.steady_clock(1700000000 * P.NS, len(sc) + 3)
                 out.append((P.line(var, iv, ce, None, 10 ** 6, True, clock, sc + [term]),
                             "len%d" % len(s)))
+    # integers that are new in the source (gen/srclit.py): as server interval (seconds), as back-off ceiling (seconds and
+    # milliseconds), as the number of non-decisive replies before the terminal one
+    from gen import srclit as S
+    for n in S.sizes(limit=P.U64, lo=0):
+        ivs = [str(n)] + ([str(n // 1000)] if n >= 1000 else []) + ["5", "abs"]
+        ces = [None, n * P.NS if n * P.NS <= P.DMAX else None, n * 10 ** 6 if n * 10 ** 6 <= P.DMAX else None, n if n <= P.DMAX else None]
+        for s in P.scripts(3):
+            for iv in ivs:
+                for ce in dict.fromkeys(ces):
+                    i += 1
+                    sc = [P.NONDEC_ALIASES[k][(i + j) % len(P.NONDEC_ALIASES[k])] for j, k in enumerate(s)]
+                    out.append((P.line(variants[i % 3], iv, ce, None, 10 ** 6, True, P.steady_clock(1700000000 * P.NS, len(sc) + 3), sc + ["success" if i % 2 else P.TERMINALS[i % len(P.TERMINALS)]]), "source-literal/interval"))
+        if 1 <= n <= 300:
+            for k in P.NONDEC:
+                for m in (n - 1, n, n + 1):
+                    for var in variants:
+                        sc = [k] * m
+                        out.append((P.line(var, "1", None, None, 10 ** 6, True, P.steady_clock(1700000000 * P.NS, m + 3), sc + ["success"]), "source-literal/script-length"))
+                        sc2 = [P.NONDEC[(j + len(k)) % 3] for j in range(m)]
+                        out.append((P.line(var, "2", 7 * P.NS, None, 10 ** 6, True, P.steady_clock(1700000000 * P.NS, m + 3), sc2 + ["denied"]), "source-literal/script-length"))
     # corpus: the two pinned-tree witnesses (D1, D2) in all variants
     for var in variants:
         out.append((P.line(var, "30", None, None, 100, True, P.steady_clock(0, 6), ["pending", "fail", "pending", "success"]), "corpus-D1"))
